@@ -62,7 +62,13 @@ package sonic
 //@   prop C12
 //@   requires pcInv(c)
 //@   // one recvfrom per call, into exactly the caller's buffer; the count is the datagram's (truncated) length
-//@   assert call syscall.Recvfrom: arg0 == c.slot.Fd && alias(arg1, b)
+//@   assert call syscall.Recvfrom: arg0 == c.slot.Fd && alias(arg1, b) && arg2 == 0
+//@   remember after call syscall.Recvfrom: again = result2 == errno(11)
+//@   remember after call syscall.Recvfrom: kn := result0
+//@   remember after call syscall.Recvfrom: kok = result2 == nil
+//@   // EAGAIN/EWOULDBLOCK (11 on linux) is "would block"; otherwise the count is the kernel's
+//@   ensures [would-block] again ==> err == sonicerrors.ErrWouldBlock
+//@   ensures [count] err == nil ==> n == kn && kok
 //@   ensures [ok] err == nil ==> 0 < n && n <= len(b)
 //@   ensures [err] err != nil ==> n == 0
 //@   modifies mem(b)
@@ -71,7 +77,11 @@ package sonic
 //@   prop C12
 //@   requires pcInv(c)
 //@   // one sendto per call with exactly the caller's bytes
-//@   assert call syscall.Sendto: arg0 == c.slot.Fd && alias(arg1, b)
+//@   assert call syscall.Sendto: arg0 == c.slot.Fd && alias(arg1, b) && arg2 == 0
+//@   remember after call syscall.Sendto: again = result == errno(11)
+//@   remember after call syscall.Sendto: kok = result == nil
+//@   ensures [would-block] again ==> result == sonicerrors.ErrWouldBlock
+//@   ensures [outcome] (result == nil) == kok
 //@   modifies nothing
 
 //@ func (*packetConn).scheduleRead
@@ -85,6 +95,9 @@ package sonic
 //@ func (*packetConn).asyncReadNow
 //@   prop C01, C12
 //@   requires pcInv(c) && cb != nil && !pcArmedR(c)
+//@   remember after call packetConn).ReadFrom: moved = result2 == nil
+//@   // success is reported only if the datagram read now succeeded; would-block is waited for, never reported
+//@   assert call cb: [C12 no-swallowed-error] (arg0 == nil ==> moved) && arg0 != sonicerrors.ErrWouldBlock
 //@   consumes cb unless pcArmedR(c)
 //@   ensures [depth] c.ioc.Dispatched == old(c.ioc.Dispatched)
 
@@ -120,6 +133,8 @@ package sonic
 //@ func (*packetConn).asyncWriteToNow
 //@   prop C01, C12
 //@   requires pcInv(c) && cb != nil && !pcArmedW(c)
+//@   remember after call packetConn).WriteTo: moved = result == nil
+//@   assert call cb: [C12 no-swallowed-error] (arg0 == nil ==> moved) && arg0 != sonicerrors.ErrWouldBlock
 //@   consumes cb unless pcArmedW(c)
 //@   ensures [depth] c.ioc.Dispatched == old(c.ioc.Dispatched)
 
